@@ -280,7 +280,13 @@ class Replay(object):
             else:
                 o = observe(lambda: self.core.Split([x], bufsize=10))
                 if o["ok"]:
-                    seq, typ = o["r"]._seqs[0], o["r"]._seq_types[0]
+                    try:
+                        seq, typ = o["r"]._seqs[0], o["r"]._seq_types[0]
+                    except AttributeError:
+                        # the private helper and the private lists were renamed: the classification is then
+                        # observed only from outside (split_type); no alarm for names that are not public
+                        self.private_unobservable = True
+                        return None, None
         if not o["ok"]:
             return {"ok": False, "type": "", "built": "", "kept": False, "exc": o["exc"]}, None
         kept = seq is x
@@ -317,7 +323,9 @@ class Replay(object):
         x, objs = made["r"]
         res, seq = self.classify(x)
         self.ncalls += 1
-        if res not in rec["callowed"]:
+        if res is None:
+            pass
+        elif res not in rec["callowed"]:
             exp = rec["callowed"][0]
             if not res["ok"] and exp["ok"]:
                 key = "classify:raised:%s" % res["exc"]
@@ -484,6 +492,8 @@ def random_trace(ctx, rp, n):
             x_obj, objs = made["r"]
             if rnd.random() < 0.5:
                 res, _ = rp.classify(x_obj)
+                if res is None:      # private names not observable: nothing to validate
+                    continue
                 trace.append({"mode": "class", "form": form, "els": els, "res": res})
             else:
                 preds = {}
